@@ -253,7 +253,8 @@ func (f Fault) String() string { return fmt.Sprintf("%s@%d:%#x", f.Kind, f.Off, 
 
 // Extreme count values: beyond any documented limit, without copying the limits.
 var Forge32 = []uint32{1<<31 - 1, 1<<32 - 1}
-var Forge64 = []uint64{1<<31 - 1, 1<<32 - 1, 1 << 40, 1<<63 - 1, 1 << 63, 1<<64 - 1}
+var Forge64 = []uint64{1<<31 - 1, 1<<32 - 1, 1 << 40, 1<<63 - 1, 1 << 63, 1<<64 - 1,
+	0x7FF0000000000000, 0xFFF0000000000000} // the last two: +Inf and -Inf when the window is a float64
 var ForgeVarint = []uint64{1<<31 - 1, 1<<32 - 1, 1 << 40, 1 << 63, 1<<64 - 1}
 
 func putUvarint(x uint64) []byte {
